@@ -41,6 +41,11 @@ class Engine:
     def assumptions(self, prop):
         return []
 
+    def irrelevant_probes(self, prop):
+        """Reach probes that cannot fire for this property (not reported as
+        stuck at zero)."""
+        return ()
+
     def quick_runs(self, prop):
         """Number of runs of the quick tier."""
         return 400
